@@ -180,7 +180,28 @@ def subtree_independence(ctx):
                                                                                                'get_reversed_path_to_root', 'get_distance'):
             parent_reads.append(n)
     ok = True
+    # the level counted by hand: a walk `p = self.get_parent(); while p is not None: n += 1; p = p.get_parent()` whose only product is the counter
+    # that ET.indent receives as its level
+    walkers = {t.id for a in ast.walk(ce.node) if isinstance(a, ast.Assign) and isinstance(a.value, ast.Call) and isinstance(a.value.func, ast.Attribute) and
+               a.value.func.attr == 'get_parent' and not a.value.args for t in a.targets if isinstance(t, ast.Name)}
+    counters = {a.target.id for a in ast.walk(ce.node) if isinstance(a, ast.AugAssign) and isinstance(a.target, ast.Name) and isinstance(a.op, ast.Add) and
+                isinstance(a.value, ast.Constant) and a.value.value == 1}
+    walk_ok = bool(walkers) and bool(counters)
+    for w in walkers:
+        for n in ast.walk(ce.node):
+            if isinstance(n, ast.Name) and n.id == w and isinstance(n.ctx, ast.Load):
+                par = next((x for x in ast.walk(ce.node) if any(c is n for c in ast.iter_child_nodes(x))), None)
+                fine = isinstance(par, ast.Compare) and all(isinstance(o, (ast.Is, ast.IsNot)) for o in par.ops) or isinstance(par, ast.While) or \
+                    isinstance(par, ast.Attribute) and par.attr == 'get_parent' or isinstance(par, (ast.UnaryOp, ast.BoolOp))
+                walk_ok = walk_ok and fine
+    for cnt in counters:
+        for n in ast.walk(ce.node):
+            if isinstance(n, ast.Name) and n.id == cnt and isinstance(n.ctx, ast.Load):
+                par = next((x for x in ast.walk(ce.node) if any(c is n for c in ast.iter_child_nodes(x))), None)
+                walk_ok = walk_ok and (isinstance(par, ast.keyword) and par.arg == 'level' or isinstance(par, ast.AugAssign))
     for p in parent_reads:
+        if walk_ok and isinstance(p, ast.Call) and p.func.attr == 'get_parent' and (unparse(p.func.value) == 'self' or unparse(p.func.value) in walkers):
+            continue
         if isinstance(p, ast.Call) and p.func.attr == 'get_level':
             # must be the level= argument of ET.indent
             inside = False
